@@ -246,10 +246,11 @@ func c03EncodeCase(c c03Case, path string, lines []pkglint.VerifC03Line) string 
 }
 
 type c03Obs struct {
-	Panic bool
-	Log   []string // encoded entries
-	Disk  string
-	State string
+	Panic  bool
+	Log    []string // encoded entries
+	Disk   string
+	State  string
+	Chmods int // model only: number of chmod operations (Custom fixer of checkExecutable with autofix = true)
 }
 
 // c03ObserveImpl runs the case on the real code; returns the observation and the loaded lines.
@@ -287,10 +288,11 @@ func c03ParseModel(ans string) (c03Obs, int, error) {
 		return c03Obs{Panic: true}, 0, nil
 	}
 	f := strings.Split(ans, ";")
-	if len(f) != 4 {
+	if len(f) != 5 {
 		return c03Obs{}, 0, fmt.Errorf("oracle answer %q", ans)
 	}
 	o := c03Obs{Disk: unhx(f[1]), State: f[3]}
+	o.Chmods, _ = strconv.Atoi(f[4])
 	if f[0] != "" {
 		o.Log = strings.Split(f[0], ",")
 	}
@@ -501,6 +503,38 @@ func c03CheckCases(ctx *Ctx, res *Result, cases []c03Case, count bool) {
 				FoundInput: true, Size: c03CaseSize(c), Replay: rep})
 			continue
 		}
+		// mode changes are changes: the executable bits may only be cleared by a logged
+		// "Clearing executable bits" (the Custom fixer of checkExecutable), and with --autofix a
+		// logged one must have been done
+		if !im.obs.Panic && im.r.Mode != 0 {
+			chmodLogged := false
+			for _, e := range im.entries {
+				if e.Kind == 'C' {
+					chmodLogged = true
+				}
+			}
+			if count && c.Mode&0o111 != 0 && c03HasEvent(c, "chmod") {
+				switch {
+				case im.r.Mode != c.Mode:
+					res.Count("U.chmod_done", 1)
+				case len(c.Only) > 0 && c.Autofix:
+					res.Count("U.chmod_skipped_under_only", 1)
+				}
+			}
+			if im.r.Mode != c.Mode && !(chmodLogged && c.Autofix && im.r.Mode == c.Mode&^0o111) {
+				res.AddViolation(Violation{Key: "C03/unit/unlogged-mode-change",
+					What:       fmt.Sprintf("Autofix script (%s, --only %q): the mode of the file changed from %o to %o, AUTOFIX lines %v", mode, c.Only, c.Mode, im.r.Mode, im.obs.Log),
+					FoundInput: true, Size: c03CaseSize(c), Replay: rep})
+				continue
+			}
+			// (a script's own Custom fixer "custom-chmod" only describes: its line is no promise)
+			if chmodLogged && c.Autofix && im.r.Mode&0o111 != 0 && !c03HasOp(c, "custom-chmod") {
+				res.AddViolation(Violation{Key: "C03/unit/chmod-logged-not-done",
+					What:       fmt.Sprintf("Autofix script (%s): \"Clearing executable bits\" was logged but the mode is still %o", mode, im.r.Mode),
+					FoundInput: true, Size: c03CaseSize(c), Replay: rep})
+				continue
+			}
+		}
 		// 2. model = implementation on the observables
 		diff := ""
 		switch {
@@ -515,6 +549,8 @@ func c03CheckCases(ctx *Ctx, res *Result, cases []c03Case, count bool) {
 			diff = fmt.Sprintf("RawText/Text afterwards: impl %s, model %s", im.obs.State, m.State)
 		case !c.Autofix && nops != 0:
 			diff = "model performs file operations without --autofix"
+		case im.r.Mode != 0 && (im.r.Mode != c.Mode) != (m.Chmods > 0):
+			diff = fmt.Sprintf("mode of the file: impl %o -> %o, model performs %d chmod operations", c.Mode, im.r.Mode, m.Chmods)
 		}
 		if diff != "" {
 			what := "state"
@@ -525,6 +561,8 @@ func c03CheckCases(ctx *Ctx, res *Result, cases []c03Case, count bool) {
 				what = "log"
 			case strings.HasPrefix(diff, "bytes"):
 				what = "disk"
+			case strings.HasPrefix(diff, "mode"):
+				what = "mode"
 			}
 			rep["broken"] = "correspondence Autofix script = Model.Autofix.run (" + what + ")"
 			rep["diff"] = diff
@@ -557,7 +595,7 @@ func c03Unit(ctx *Ctx, res *Result, rng *Rng) {
 		evs := c03GenEvents(r, probe.Lines, plist, mode)
 		var only []string
 		if r.Chance(20) {
-			only = []string{Pick(r, []string{"Diag one", "Other", "thing", "sorted before", "Silent", "nothing matches"})}
+			only = []string{Pick(r, []string{"Diag one", "Other", "thing", "sorted before", "Silent", "nothing matches", "executable", "Should not be"})}
 			if r.Chance(30) {
 				only = append(only, Pick(r, []string{"Diag", "SilentAutofixFormat", "zzz"}))
 			}
@@ -575,13 +613,34 @@ func c03Unit(ctx *Ctx, res *Result, rng *Rng) {
 	}
 	// the generator must keep reaching every operation kind with a logged effect
 	need := map[string]int{"U.logged.R": 200, "U.logged.A": 50, "U.logged.B": 50, "U.logged.D": 50, "U.logged.S": 20, "U.logged.C": 10,
-		"U.op.replaceafter": 200, "U.op.replaceat": 200, "U.event.save": 200, "U.event.sort": 50, "U.cases_with_continuation_lines": 200, "U.files_rewritten": 200, "U.with_only": 100, "U.panics": 20}
+		"U.op.replaceafter": 200, "U.op.replaceat": 200, "U.event.save": 200, "U.event.sort": 50, "U.cases_with_continuation_lines": 200, "U.files_rewritten": 200, "U.with_only": 100, "U.panics": 20,
+		"U.chmod_done": 20, "U.chmod_skipped_under_only": 5}
 	for k, min := range need {
 		if c, _ := res.Distribution[k].(int); c < min {
 			res.Broken = fmt.Sprintf("unit generator lost its coverage: %s = %d < %d", k, c, min)
 			return
 		}
 	}
+}
+
+func c03HasEvent(c c03Case, kind string) bool {
+	for _, ev := range c.Events {
+		if ev.Kind == kind {
+			return true
+		}
+	}
+	return false
+}
+
+func c03HasOp(c c03Case, kind string) bool {
+	for _, ev := range c.Events {
+		for _, op := range ev.Ops {
+			if op.Kind == kind {
+				return true
+			}
+		}
+	}
+	return false
 }
 
 func c03ReplayScript(ctx *Ctx, res *Result, rep map[string]any) {
